@@ -108,6 +108,8 @@ class FictitiousPlay:
             _copy_action_profile_to(out, actions)
 
         brs = np.empty(self.N, dtype=int)
+        # int(): narrow NumPy integers would overflow in t_init+num_reps
+        t_init, num_reps = int(t_init), int(num_reps)
         for t in range(t_init, t_init+num_reps):
             out = self._play(out, t, brs, tie_breaking, tol, random_state)
 
@@ -143,6 +145,7 @@ class FictitiousPlay:
         tol = options.get('tol', None)
         random_state = check_random_state(options.get('random_state', None))
 
+        t_init = int(t_init)  # A narrow NumPy integer would overflow below
         out = tuple(np.empty((ts_length, n)) for n in self.nums_actions)
         out_init = tuple(out[i][0, :] for i in range(self.N))
 
